@@ -593,6 +593,60 @@ def kfifo(ctx):
                   "in_valid_region(tail_old=%s, tail=%s, head=%s) returns %s but tail_old is %s the window (head, tail]: a push whose segment fell out of the window is "
                   "accepted as committed (element stranded: false empty, unbounded overtaking) or a valid one is rolled back" % (
                       (bad + ("inside" if not bad[3] else "outside",)) if bad else (0, 0, 0, 0, "")), fn.where(), fn=fn)
+    # the slot scan of a segment is complete for every random start offset
+    rid6 = "KF.scan-complete"
+    ctx.rule(rid6, "k-FIFO find_index: for every k in {1,2,3,5} and every random start offset the scanned indices are exactly the k slots of the segment "
+                   "(finite evaluation of the index expression and the loop bound)")
+    for C in (X + "kirsch_kfifo_queue::", B_):
+        for fn in flow._shapes(ctx, C + "find_index"):
+            loop_var = None
+            for b, i, e, n in fn.events():
+                if n["k"] == "un" and n["op"] == "++" and fn.nodes[fn.kids(e)[0]]["k"] == "ref":
+                    loop_var = fn.nodes[fn.kids(e)[0]]["name"]
+            conds = [blk["cond"] for b, blk in fn.blocks.items() if "cond" in blk and blk.get("term") in ("ForStmt", "WhileStmt") and b in fn.live_blocks()]
+            # the index used for the slot load
+            lds = flow.find(fn, {"k": "call", "field": "entry::value", "op": "load"})
+            idx_node = None
+            for l in lds:
+                o = fn.kids(l)[0]
+                for x in fn.subtree(o):
+                    if fn.nodes[x]["k"] in ("index",) or (fn.nodes[x]["k"] == "call" and fn.nodes[x].get("callee", "").endswith("operator[]")):
+                        kk = fn.kids(x)
+                        if len(kk) >= 2:
+                            idx_node = kk[-1]
+            rnd = [v["name"] for b, i, e, n in fn.events() if n["k"] == "decl" for v in n["vars"] if "init" in v and "call:random" in flow.srcs(fn, v["init"])]
+            if loop_var is None or not conds or idx_node is None or not rnd:
+                ctx.broken.append("find_index idiom not recognised in %s" % C)
+                continue
+            bounded = "bounded" in C
+            bad = None
+            try:
+                for k in (1, 2, 3, 5):
+                    segs = 3
+                    for r in range(k):
+                        for start in ([0] if not bounded else [0, k, 2 * k]):
+                            base = {rnd[0]: r, "k": k, "_k": k, "this._k": k, "_queue_size": k * segs, "this._queue_size": k * segs}
+                            if bounded and fn.params:
+                                base[fn.params[0]["name"]] = start
+                            seen_idx = []
+                            i = 0
+                            while i < k + 2:
+                                env = dict(base)
+                                env[loop_var] = i
+                                if not evalx(fn, conds[0], env):
+                                    break
+                                seen_idx.append(evalx(fn, idx_node, env))
+                                i += 1
+                            want = sorted((start + j) % (k * segs) if bounded else j for j in range(k))
+                            if sorted(seen_idx) != want and bad is None:
+                                bad = (k, r, start, seen_idx, want)
+            except Unknown as ex:
+                ctx.broken.append("find_index of %s not evaluable: %s" % (C, ex))
+                continue
+            ctx.exhaustive[rid6] = True
+            ctx.check(bad is None, rid6, C + "find_index#covers-all-k-slots", "scan covers exactly the k slots of the segment for every start offset",
+                      "find_index with k=%s, random offset %s, segment start %s scans slots %s instead of %s: elements in unscanned slots are invisible (false 'empty' / "
+                      "segment never drained) or foreign slots are touched" % (bad if bad else (0, 0, 0, 0, 0)), fn.where(), fn=fn)
     # a pop that takes from the segment that is both head and tail advances the tail first (both variants)
     rid5 = "KF.tail-advance"
     ctx.rule(rid5, "k-FIFO pop: when the head segment is also the tail segment the tail is advanced before the element is taken, so that pushes move on to a "
